@@ -54,7 +54,12 @@ func skipField(f reflect.StructField) bool {
 }
 
 // EncodeGo renders a Go value (of the gogo-generated types) as canonical JSON.
-func EncodeGo(v reflect.Value) interface{} {
+func EncodeGo(v reflect.Value) interface{} { return encodeGo(v, false) }
+
+// EncodeGoCanon is EncodeGo with struct fields that hold their zero value left out (absent = zero).
+func EncodeGoCanon(v reflect.Value) interface{} { return encodeGo(v, true) }
+
+func encodeGo(v reflect.Value, canon bool) interface{} {
 	t := v.Type()
 	switch {
 	case t == timeType:
@@ -86,14 +91,14 @@ func EncodeGo(v reflect.Value) interface{} {
 		if v.IsNil() {
 			return J{"P": nil}
 		}
-		return J{"P": EncodeGo(v.Elem())}
+		return J{"P": encodeGo(v.Elem(), canon)}
 	case reflect.Slice:
 		if v.IsNil() {
 			return J{"L": nil}
 		}
 		l := make([]interface{}, v.Len())
 		for i := range l {
-			l[i] = EncodeGo(v.Index(i))
+			l[i] = encodeGo(v.Index(i), canon)
 		}
 		return J{"L": l}
 	case reflect.Map:
@@ -103,7 +108,7 @@ func EncodeGo(v reflect.Value) interface{} {
 		m := J{}
 		it := v.MapRange()
 		for it.Next() {
-			m[hex.EncodeToString([]byte(it.Key().String()))] = EncodeGo(it.Value())
+			m[hex.EncodeToString([]byte(it.Key().String()))] = encodeGo(it.Value(), canon)
 		}
 		return J{"M": m}
 	case reflect.Interface:
@@ -115,16 +120,16 @@ func EncodeGo(v reflect.Value) interface{} {
 			return J{"O": J{"w": "?" + w.Type().String(), "f": "", "v": nil}}
 		}
 		ws := w.Elem()
-		return J{"O": J{"w": ws.Type().Name(), "f": ws.Type().Field(0).Name, "v": EncodeGo(ws.Field(0))}}
+		return J{"O": J{"w": ws.Type().Name(), "f": ws.Type().Field(0).Name, "v": encodeGo(ws.Field(0), canon)}}
 	case reflect.Struct:
 		m := J{}
-		encodeStructInto(v, m)
+		encodeStructInto(v, m, canon)
 		return J{"S": m}
 	}
 	panic("EncodeGo: unsupported type " + t.String())
 }
 
-func encodeStructInto(v reflect.Value, m J) {
+func encodeStructInto(v reflect.Value, m J, canon bool) {
 	t := v.Type()
 	for i := 0; i < t.NumField(); i++ {
 		f := t.Field(i)
@@ -132,10 +137,13 @@ func encodeStructInto(v reflect.Value, m J) {
 			continue
 		}
 		if f.Anonymous && f.Type.Kind() == reflect.Struct {
-			encodeStructInto(v.Field(i), m) // value-embedded message: flattened
+			encodeStructInto(v.Field(i), m, canon) // value-embedded message: flattened
 			continue
 		}
-		m[f.Name] = EncodeGo(v.Field(i))
+		if canon && isZeroValue(v.Field(i)) {
+			continue
+		}
+		m[f.Name] = encodeGo(v.Field(i), canon)
 	}
 }
 
@@ -281,4 +289,28 @@ func EncodeStrs(ss []string, isNil bool) interface{} {
 		l[i] = J{"s": hex.EncodeToString([]byte(s))}
 	}
 	return J{"L": l}
+}
+
+// isZeroValue reports whether v is the Go zero value, bit-wise for floats (-0.0 is not the zero value).
+func isZeroValue(v reflect.Value) bool {
+	switch v.Kind() {
+	case reflect.Float32:
+		return math.Float32bits(float32(v.Float())) == 0
+	case reflect.Float64:
+		return math.Float64bits(v.Float()) == 0
+	case reflect.Struct:
+		if v.Type() == timeType {
+			return v.Interface().(time.Time) == (time.Time{})
+		}
+		for i := 0; i < v.NumField(); i++ {
+			if skipField(v.Type().Field(i)) {
+				continue
+			}
+			if !isZeroValue(v.Field(i)) {
+				return false
+			}
+		}
+		return true
+	}
+	return v.IsZero()
 }
